@@ -41,7 +41,10 @@ def scenario(rng, qk):
             s.op(f"T {rng.choice(sorted(s.alive))} go")
         else:
             s.backend_some()
-    s.finish(final=True)
+    if rng.random() < 0.3:
+        s.finish_by_exit()               # BackendWorker::_exit() drains whatever was accepted
+    else:
+        s.finish(final=True)
     return s.text(), s.grace
 
 
